@@ -59,14 +59,21 @@ def new_lab() -> Lab:
     return lab
 
 
-def run_pipeline(lab: Lab, make: Callable[[], Any], sub_at: float = SUB_AT, with_scheduler: bool = True) -> ProbeObserver:
+def run_pipeline(lab: Lab, make: Callable[[], Any], sub_at: float = SUB_AT, with_scheduler: bool = True, immediate: bool = False) -> ProbeObserver:
     """make() builds a FRESH observable inside the subscribing action; it is subscribed exactly once.
     with_scheduler=False: subscribe(observer) without a scheduler argument, so that operators which schedule
     internal steps fall back to their default scheduler (CurrentThreadScheduler trampoline)."""
     top = lab.observer("top", inner=False)
 
     def do_sub() -> None:
-        if with_scheduler:
+        if immediate:
+            # subscribe(observer, scheduler=ImmediateScheduler()): operators that schedule their internal steps on the
+            # subscriber's scheduler run them inline, i.e. recursively inside the notification that triggered them
+            from reactivex.scheduler import ImmediateScheduler
+            top.subscription = make().subscribe(top, scheduler=ImmediateScheduler())
+            if top.pending_dispose:
+                top.dispose()
+        elif with_scheduler:
             top.subscribe_to(make())
         else:
             top.subscription = make().subscribe(top)
